@@ -191,18 +191,12 @@ def check_import(cfg, crate, rep):
         txt = core(kim).r() if kim is not None else ""
         ok = kim is not None and "PreSpecified" in txt and "SubjectKeyIdentifier" in txt
         rep.ob("C03.import", key + "|ski-captured", ok, "the CA certificate's SubjectKeyIdentifier is captured as KeyIdMethod::PreSpecified", found=txt[:300], sp=node.get("sp"))
-        # only the SubjectKeyIdentifier extension may be captured: any other arm yielding Some(..) captures a foreign id
-        b = crate.body(fn)
-        arms = []
-        for m in common.hir_walk(b["hir"]):
-            if m["k"] == "Match" and any("ParsedExtension::" in (a["pat"].get("ctor_of") or a["pat"].get("def") or "") for a in m["arms"]):
-                for a in m["arms"]:
-                    p = a["pat"]
-                    nm = (p.get("ctor_of") or p.get("def") or ("_" if p["k"] == "Wild" else p["k"])).split("::")[-1]
-                    yields_some = any(x["k"] == "Call" and x.get("callee") == "Some" for x in common.hir_walk(a["body"]))
-                    arms.append((nm, yields_some))
-        want_arms = [("SubjectKeyIdentifier", True), ("_", False)]
-        rep.ob("C03.import", key + "|only-ski-captured", sorted(arms) == sorted(want_arms), "the captured key identifier comes from the SubjectKeyIdentifier extension and from nothing else (an authority key identifier is the *parent's* id)", expected=want_arms, found=arms, sp=node.get("sp"))
+        # only the SubjectKeyIdentifier extension may be captured: the value stored in key_identifier_method may
+        # select the payload of that ParsedExtension variant and of no other (semantic: variant selectors among the
+        # value's provenance roots, whatever the shape of the search -- match arm, if-let, helper function)
+        sels = sorted(r[len("sel:#"):] for r in roots(kim) if r.startswith("sel:#")) if kim is not None else []
+        want_sels = ["SubjectKeyIdentifier.0"]
+        rep.ob("C03.import", key + "|only-ski-captured", sels == want_sels, "the captured key identifier comes from the SubjectKeyIdentifier extension and from nothing else (an authority key identifier is the *parent's* id)", expected=want_sels, found=sels, sp=node.get("sp"))
         dn = sv.fields.get("distinguished_name")
         okd = dn is not None and any(c.endswith("DistinguishedName::from_name") for c in calls_of(dn)) and {"sel:.subject", "sel:.tbs_certificate"} <= roots(dn) and places(dn) == {"ca_cert"}
         rep.ob("C03.import", key + "|subject", okd, "the issuer name is rebuilt from the certificate's subject", found=core(dn).r()[:200] if dn is not None else None)
